@@ -18,13 +18,34 @@ pub struct Recorded {
 
 /// reset, registration events, final print, build, `built` event.
 pub fn record_registration(prog: &Prog, variant: Variant, prog_no: usize, var_no: usize, print_every: bool) -> Recorded {
+    #[cfg(feature = "parallel")]
+    return record_registration_pool(prog, variant, prog_no, var_no, print_every, shared_pool());
+    #[cfg(not(feature = "parallel"))]
+    return record_registration_pool(prog, variant, prog_no, var_no, print_every, ());
+}
+
+#[cfg(feature = "parallel")]
+pub type PoolArg = std::sync::Arc<rayon::ThreadPool>;
+#[cfg(not(feature = "parallel"))]
+pub type PoolArg = ();
+
+pub fn record_registration_pool(
+    prog: &Prog,
+    variant: Variant,
+    prog_no: usize,
+    var_no: usize,
+    print_every: bool,
+    pool: PoolArg,
+) -> Recorded {
     let mut rec = Recorder::new(variant, print_every);
     rec.events.push(json!({"ev":"reset","prog":prog_no,"var":var_no}));
     let (b, top) = rec.build(prog);
     rec.print(top, &b);
     let blay = b.verif_layout();
     #[cfg(feature = "parallel")]
-    let b = b.with_pool(shared_pool());
+    let b = b.with_pool(pool);
+    #[cfg(not(feature = "parallel"))]
+    let _ = pool;
     let d = std::panic::catch_unwind(std::panic::AssertUnwindSafe(move || b.build()));
     match d {
         Ok(d) => {
